@@ -428,3 +428,43 @@ def failure_classes(ctx):
     import collections
     c = collections.Counter(f.get("class") for f in ctx.failures)
     return dict(c)
+
+
+KV_OPTS = ("--env", "--label", "--annotation", "--opt")
+
+
+def canon_argv(argv):
+    """sort each contiguous run of name=value options (HashMap iteration order is unspecified; C10/C19 exempt it)"""
+    if argv is None:
+        return None
+    out, i, run_ = [], 0, []
+    while i < len(argv):
+        if argv[i] in KV_OPTS and i + 1 < len(argv) and "=" in argv[i + 1]:
+            run_.append((argv[i], argv[i + 1])); i += 2
+            continue
+        if run_:
+            out += [x for p in sorted(run_) for x in p]; run_ = []
+        out.append(argv[i]); i += 1
+    if run_:
+        out += [x for p in sorted(run_) for x in p]
+    return out
+
+
+def canon_records(outs):
+    """convert-op output lines -> canonical comparable structure (Exec* lines decoded with the spec splitter and kv runs sorted)"""
+    recs_all = [parse_convert(o) for o in outs]
+    lines, where = [], []
+    for i, recs in enumerate(recs_all):
+        for j, r in enumerate(recs):
+            for si, (name, es) in enumerate(r.get("sections", [])):
+                for ei, (k, v) in enumerate(es):
+                    if name == "Service" and k.startswith("Exec"):
+                        lines.append(v.encode()); where.append((i, j, si, ei))
+    argvs = sd_split_many(lines) if lines else []
+    res = []
+    for recs in recs_all:
+        res.append([{"path": r.get("path"), "ok": r.get("ok"), "err": r.get("err"), "svc": r.get("svc"),
+                     "sections": [(n, [list(e) for e in es]) for n, es in r.get("sections", [])]} for r in recs])
+    for (i, j, si, ei), a in zip(where, argvs):
+        res[i][j]["sections"][si][1][ei][1] = canon_argv(a)
+    return res
